@@ -5,6 +5,7 @@ package vsync
 
 import (
 	real "sync"
+	realatomic "sync/atomic"
 
 	"github.com/oauth2-proxy/oauth2-proxy/v7/verifx/sched"
 )
@@ -148,27 +149,30 @@ func (m *RWMutex) Held() (writer bool, readers int) { return m.writer, m.readers
 type Once struct {
 	r    real.Once
 	m    Mutex
-	done bool
+	done realatomic.Bool // shared by both modes: an initialisation done before the scheduler started is done
 }
 
 func (o *Once) Do(f func()) {
 	if sched.Controlled() {
 		sched.Point("Once.Do")
-		if o.done {
+		if o.done.Load() {
 			return
 		}
 		o.m.Lock()
 		defer o.m.Unlock()
-		if !o.done {
-			defer func() { o.done = true }()
+		if !o.done.Load() {
+			defer o.done.Store(true)
 			f()
 		}
 		return
 	}
-	if o.done {
+	if o.done.Load() {
 		return
 	}
-	o.r.Do(f)
+	o.r.Do(func() {
+		defer o.done.Store(true)
+		f()
+	})
 }
 
 // WaitGroup mirrors sync.WaitGroup.
